@@ -6,7 +6,7 @@ from .. import replay as rp
 from .setops import bits_for, fnr, decode_ab, prog_ab, built
 
 BOUNDS = {
-    'quick': {'alternatives_per_operand': '1..2', 'identifier_list_len': 1},
+    'quick': {'alternatives_per_operand': '1..2', 'hybrid_groups': 'identifiers abstract (any length), fields major/minor/patch full u64 <= MAX_SAFE_INTEGER for operand products < 4 alternatives, < 8 for larger products', 'identifier_list_len': 1},
     'thorough': {'alternatives_per_operand': '1..3', 'identifier_list_len': 2},
 }
 OUTSIDE = ['ranges with more alternatives than the bound', 'identifier lists longer than the bound', 'contents of alphanumeric identifiers',
@@ -20,9 +20,11 @@ def groups(tier):
     for ka in range(1, K + 1):
         for kb in range(1, K + 1):
             gs.append({'name': 'rank-%dx%d' % (ka, kb), 'fn': rank_group, 'args': {'ka': ka, 'kb': kb}})
-    conc = [(1, 1)] if tier == 'quick' else [(1, 1), (1, 2), (2, 1)]
-    for ka, kb in conc:
-        gs.append({'name': 'sat-%dx%d' % (ka, kb), 'fn': sat_group, 'args': {'ka': ka, 'kb': kb, 'L': 1 if tier == 'quick' else 2}})
+    for ka in range(1, K + 1):
+        for kb in range(1, K + 1):
+            gs.append({'name': 'sat-hybrid-%dx%d' % (ka, kb), 'fn': sat_group, 'args': {'ka': ka, 'kb': kb, 'L': 1, 'hybrid': True}})
+    if tier != 'quick':
+        gs.append({'name': 'sat-concrete-1x1', 'fn': sat_group, 'args': {'ka': 1, 'kb': 1, 'L': 2, 'hybrid': False}})
     return gs
 
 
@@ -87,8 +89,8 @@ def rank_group(s, ka, kb):
     s.bounds_ok(h, 'difference %dx%d' % (ka, kb), [])
 
 
-def sat_group(s, ka, kb, L):
-    h = s.harness(L=L, cap_bs=max(ka * 2 ** kb, 2 * ka * kb))
+def sat_group(s, ka, kb, L, hybrid=True):
+    h = s.harness(L=L, cap_bs=max(ka * 2 ** kb, 2 * ka * kb), rank_bits=(bits_for(2 * (ka + kb) + 1) if hybrid else 0), hybrid=hybrid, field_bits=(3 if hybrid and ka * kb >= 4 else 0))
     A, _ = h.range_('A', ka, allow_any=True)
     B, _ = h.range_('B', kb, allow_any=True)
     v = h.version('v')
